@@ -47,6 +47,8 @@ class HybridNew(ModeMixin, LibModel):
         st = State()
         st.ghost['mode'] = z3.Const('mode_now', Mode)
         st.assume(MODE_DISTINCT)
+        # whatever is on the expression-context stack (a `with query:` block may be open while symbolic mode is off)
+        st.ghost['stack_top'] = z3.Const('stack_top', Z.Node)
         st.locals['symbolic_cls'] = Obj('theclass', {})
         st.locals['args'] = Obj('argpack', {})
         st.locals['kwargs'] = Obj('kwpack', {})
